@@ -38,6 +38,7 @@ func vWatchConfigAppends(r *Raft, l *leader) {
 }
 
 var (
+	vRequested  *Config // the configuration submitted by the request under test, if any
 	vWatchR     *Raft
 	vCommitted0 Config // deep copy of the committed configuration when watching started
 )
@@ -77,6 +78,20 @@ func vCheckConfigAppends(tag string, checkReady bool) {
 				diff += vIte64(old.Voter, 1, 0)
 			}
 		}
+		// a vote is gained only by carrying out a Promote that was pending in the configuration before (C11: never by
+		// re-introducing an older configuration on top of a newer one)
+		gained := true
+		for id, nn := range ap.conf.Nodes {
+			old, ok := ap.prev.Nodes[id]
+			asked := false // ... or a Promote the request being processed asks for (carried out at once if the node has caught up)
+			if vRequested != nil {
+				if rn, rok := vRequested.Nodes[id]; rok {
+					asked = vAnd(!rn.Voter, rn.Action == Promote)
+				}
+			}
+			gained = vAnd(gained, vImp(vAnd(nn.Voter, vNot(vAnd(ok, old.Voter))), vAnd(ok, vOr(old.Action == Promote, asked))))
+		}
+		vAssert(gained, tag+"-a-vote-is-gained-only-through-a-pending-promote")
 		vAssert(diff <= 1, tag+"-voter-set-changes-by-at-most-one")
 		vAssert(voters >= 1, tag+"-a-voter-remains")
 		vAssert(plain >= 1, tag+"-a-voter-without-pending-action-remains")
@@ -127,6 +142,7 @@ func vOnChangeConfig(n int) {
 	}
 	vWatchConfigAppends(r, l)
 	t := changeConfig{task: newTask(), newConf: nc}
+	vRequested = &t.newConf
 	l.onChangeConfig(t)
 	if len(vCfgAppends) == 0 {
 		vReach("rejected")
